@@ -205,6 +205,8 @@ def build():
     ds.requires('x_is_the_select_of_its_recorded_source', f'({VB} == F::fone() ==> old(self).val(x) == old(self).val(t)) && ({VB} == F::fzero() ==> old(self).val(x) == old(self).val(s))')
     ds.requires('one_branch_has_provenance', 'old(self).prov_of(t) is Some || old(self).prov_of(s) is Some')
     ds.ensures('frame', 'ret matches Ok(c) ==> final(self).extends(old(self)) && c@.len() == sp_dimension::<F>() && final(self).has_all(c@)')
+    # the coefficient-wise shortcut x_i = select(b, t_i, s_i) is the decomposition of x = s + b(t - s) only for a BASE-FIELD selector; `select` accepts any selector and nothing at this site checks it
+    ds.ensures('H_the_selector_of_a_recorded_select_is_a_base_field_element', f'ret is Ok ==> all_base(seq![{VB}])')
     ds.ensures('for_a_boolean_selector_the_coefficients_recompose_to_x_and_are_base_field_elements',
                f'ret matches Ok(c) ==> (final(self).sat@ && ({VB} == F::fone() || {VB} == F::fzero()) ==> packv(final(self).vals_of(c@), c@.len() as int) == old(self).val(x) && all_base(final(self).vals_of(c@)))')
     ZL = 'for fz_ in 0..n_fz_'
